@@ -5,7 +5,7 @@ from __future__ import annotations
 import ast
 
 from .. import cfg as cfgmod
-from ..astutil import call_name, const_str, guard_texts, guards_of, kw, message_skeleton, star_kwargs
+from ..astutil import call_name, const_str, early_exit_guards, guard_texts, guards_of, kw, message_skeleton, star_kwargs
 from ..dataflow import ReachingDefs
 from ..callgraph import CallGraph
 from ..loader import AnalysisError, ancestors, norm, parent, walk_own
@@ -339,6 +339,34 @@ def run(ctx):
                 r4.check(_in_try(x, ("ValueError", "Exception")), f"K10 {fi.qualname}:{norm(x)[:60]}", "a strict zip over sheet data is inside a ValueError handler", fi.loc(x),
                          why_fail="rows of unequal length raise ValueError out of convert()")
     r4.ok("K10 zip census", f"{n_zip} zip() calls on the conversion path examined", "")
+    # K11: inside one comprehension, a subscript d[k] evaluated BEFORE the filter that tests d.get(k) / k in d for the same
+    # d and k (the filter states the belief that k may be absent or of another type; the subscript contradicts it)
+    n_k11 = 0
+    for fi in repo.all_functions():
+        if fi.fq not in reach:
+            continue
+        for comp in walk_own(fi.node):
+            if not isinstance(comp, ast.ListComp | ast.SetComp | ast.DictComp | ast.GeneratorExp):
+                continue
+            seen_subs = []   # (text of d, text of k, node) in evaluation order
+            for g in comp.generators:
+                for x in ast.walk(g.iter):
+                    if isinstance(x, ast.Subscript) and isinstance(x.ctx, ast.Load):
+                        seen_subs.append((norm(x.value), norm(x.slice), x))
+                for cond in g.ifs:
+                    for t in ast.walk(cond):
+                        belief = None
+                        if isinstance(t, ast.Call) and isinstance(t.func, ast.Attribute) and t.func.attr == "get" and t.args:
+                            belief = (norm(t.func.value), norm(t.args[0]))
+                        elif isinstance(t, ast.Compare) and len(t.ops) == 1 and isinstance(t.ops[0], ast.In | ast.NotIn):
+                            belief = (norm(t.comparators[0]), norm(t.left))
+                        if belief is None:
+                            continue
+                        n_k11 += 1
+                        bad = [sx for (d, k, sx) in seen_subs if (d, k) == belief]
+                        r4.check(not bad, f"K11 {fi.qualname}:{belief[0]}[{belief[1]}] before its filter", "a comprehension does not subscript a key before the filter that tests for it",
+                                 fi.loc(bad[0] if bad else cond), why_fail=f"`{belief[0]}[{belief[1]}]` is evaluated for every element, the filter `{norm(cond)[:60]}` only afterwards: a row without the key raises KeyError")
+    r4.ok("K11 census", f"{n_k11} key-presence filters inside comprehensions examined", "")
     # K2: iteration over a possibly-None slot that another site guards
     guarded, unguarded = [], []
     for fi in repo.all_functions():
@@ -356,18 +384,40 @@ def run(ctx):
                 (guarded if any(t in ("self.children", "self.children is not None") for t in gts) else unguarded).append((fi, x))
     init_none = any(isinstance(x, ast.AnnAssign | ast.Assign) and "self.children" in norm(getattr(x, "target", None) or x.targets[0]) and norm(x.value) == "None"
                     for x in walk_own(repo.cls("pyxform.section:Section").methods["__init__"].node))
-    r4.check(init_none and bool(guarded), "K2 Section.children:contradiction premise", "the slot starts as None and at least one traversal guards it (so None is a real state)", "pyxform/section.py")
+    # is None a state of the slot at all?  (initialised to None, or assigned None anywhere in the package)
+    def _section_like(fi):
+        owner = fi
+        while owner.cls is None and owner.parent is not None:
+            owner = owner.parent
+        return owner.cls is None or any(c.name == "Section" for c in it0.mro(owner.cls))
+
+    def _none_target(fi, t):
+        # `self.children = None` inside a class that is not a Section writes another class's slot; any other receiver is unknown
+        if not (isinstance(t, ast.Attribute) and t.attr == "children"):
+            return False
+        return _section_like(fi) or not (isinstance(t.value, ast.Name) and t.value.id == "self")
+
+    none_writes = [(fi, x) for fi in repo.all_functions() for x in walk_own(fi.node)
+                   if isinstance(x, ast.AnnAssign | ast.Assign) and x.value is not None and norm(x.value) == "None"
+                   and any(_none_target(fi, t) for t in ([x.target] if isinstance(x, ast.AnnAssign) else x.targets))]
+    r4.check(bool(guarded) or bool(unguarded), "K2 Section.children:census", "traversals of Section.children were found", "pyxform/section.py")
+    r4.ok("K2 Section.children:state", ("None is a state of the slot: " + ", ".join(f.qualname for f, _x in none_writes)) if (init_none or none_writes)
+          else "the slot is initialised to a list and never assigned None: an empty group has children []", "pyxform/section.py")
     for fi, x in guarded:
         r4.ok(f"K2 {fi.fq}:for … in self.children", "guarded by a truthiness test", fi.loc(x))
     for fi, x in unguarded:
-        r4.fail(f"K2 {fi.fq}:for … in self.children", "iteration over self.children is guarded against None (an empty group has children None)", fi.loc(x))
+        r4.check(not (init_none or none_writes), f"K2 {fi.fq}:for … in self.children",
+                 "iteration over self.children is guarded against None, or None is not a state of the slot", fi.loc(x),
+                 why_fail="an empty group leaves children None: TypeError: 'NoneType' object is not iterable")
     # K2b: osm tags
     for x in walk_own(loop):
         if isinstance(x, ast.For) and isinstance(x.iter, ast.Name):
             src = [a for a in walk_own(loop) if isinstance(a, ast.Assign) and isinstance(a.targets[0], ast.Name) and a.targets[0].id == x.iter.id]
             if src and isinstance(src[0].value, ast.Call) and call_name(src[0].value) == "get" and len(src[0].value.args) == 1:
                 gts = guard_texts(x, stop=loop)
-                r4.check(any(x.iter.id in t and "not" not in t.split(x.iter.id)[0][-4:] for t in gts if t.strip() == x.iter.id or t.startswith(x.iter.id + " ")),
+                exits = {norm(t) for t, _pol in early_exit_guards(x, stop=loop)}
+                r4.check(any(x.iter.id in t and "not" not in t.split(x.iter.id)[0][-4:] for t in gts if t.strip() == x.iter.id or t.startswith(x.iter.id + " "))
+                         or bool(exits & {f"{x.iter.id} is None", f"not {x.iter.id}"}),
                          f"K2 workbook_to_json:for … in {x.iter.id}", f"`{x.iter.id}` comes from dict.get() (None when the key is missing) and is tested before iteration", w2j.loc(x),
                          why_fail=f"{norm(src[0].value)} may be None")
     # K4: % formatting with a non-literal left operand
